@@ -1458,6 +1458,47 @@ fn hdr_from_hex(s: &str) -> Result<BlockHeader, Fail> {
 	ser::deserialize::<BlockHeader, _>(&mut &b[..], ProtocolVersion(1), DeserializationMode::default()).map_err(|e| Fail::new("harness:deser", format!("{:?}", e)))
 }
 
+/// What the peer-message codec hands to the node when the stream `frames` arrives from the network (AutomatedTesting
+/// magic): every header it delivers (single `Header` messages and the batches of a `Headers` message), and whether
+/// reading ended in an error. This is the path headers actually take during header sync and block announcement.
+fn codec_headers(frames: &[u8]) -> Result<(Vec<BlockHeader>, bool), Fail> {
+	use grin_p2p::msg::Message;
+	use std::io::Write;
+	let io = |w: &str| { let w = w.to_string(); move |e: std::io::Error| Fail::new("harness:io", format!("{}: {}", w, e)) };
+	let lis = std::net::TcpListener::bind("127.0.0.1:0").map_err(io("bind"))?;
+	let mut w = std::net::TcpStream::connect(lis.local_addr().map_err(io("addr"))?).map_err(io("connect"))?;
+	let (r, _) = lis.accept().map_err(io("accept"))?;
+	w.write_all(frames).map_err(io("write"))?;
+	w.shutdown(std::net::Shutdown::Write).map_err(io("shutdown"))?;
+	let mut codec = grin_p2p::verif_export::Codec::new(ProtocolVersion(1), r);
+	let mut got = vec![];
+	let mut errored = false;
+	for _ in 0..64 {
+		match catch(|| codec.read())?.0 {
+			Ok(Message::Header(h)) => got.push(BlockHeader::from(h)),
+			Ok(Message::Headers(d)) => {
+				let done = d.remaining == 0;
+				got.extend(d.headers.into_iter());
+				let _ = done;
+			}
+			Ok(_) => {}
+			Err(_) => {
+				// end of stream (the writer half-closed) and refusals both end the loop; only a header that was
+				// DELIVERED matters to the oracle
+				errored = true;
+				break;
+			}
+		}
+	}
+	Ok((got, errored))
+}
+
+fn net_frame(t: grin_p2p::msg::Type, body: &[u8]) -> Result<Vec<u8>, Fail> {
+	let mut f = catch(|| ser::ser_vec(&grin_p2p::msg::MsgHeader::new(t, body.len() as u64), ProtocolVersion(1)))?.map_err(|e| Fail::new("harness:ser", format!("{:?}", e)))?;
+	f.extend_from_slice(body);
+	Ok(f)
+}
+
 pub fn check_c(ctx: &Ctx, case: &CaseC, counting: bool) -> PResult {
 	init_thread();
 	let ev = &ctx.ev;
@@ -1535,6 +1576,42 @@ pub fn check_c(ctx: &Ctx, case: &CaseC, counting: bool) -> PResult {
 	} else {
 		if let Ok(_) = res {
 			fail!(format!("policy-violating-header-decoded:{}", label), "height {} param {}: decoded {:?}", t.height, case.param, m);
+		}
+	}
+	// the same header arriving the way headers arrive from the network: as a `Header` message and inside a
+	// `Headers` list (in front of, between or behind untouched headers), through the real codec
+	if case.param % 3 != 2 || !accept {
+		let t_bytes = catch(|| ser::ser_vec(&t, ProtocolVersion(1)))?.map_err(|e| Fail::new("harness:ser", format!("{:?}", e)))?;
+		let stream = net_frame(grin_p2p::msg::Type::Header, &bytes)?;
+		let n_before = (case.param / 3 % 3) as usize;
+		let n_after = (case.param / 9 % 2) as usize;
+		let mut list = ((n_before + 1 + n_after) as u16).to_be_bytes().to_vec();
+		for _ in 0..n_before {
+			list.extend_from_slice(&t_bytes);
+		}
+		list.extend_from_slice(&bytes);
+		for _ in 0..n_after {
+			list.extend_from_slice(&t_bytes);
+		}
+		// one connection per message: a refused message ends the connection, as it does in the node
+		let (mut got, _) = codec_headers(&stream)?;
+		got.extend(codec_headers(&net_frame(grin_p2p::msg::Type::Headers, &list)?)?.0);
+		let delivered = got.iter().filter(|h| **h == m).count();
+		if accept {
+			// (an untouched header equals the neighbours it is listed with)
+			let want = if m == t { 2 + n_before + n_after } else { 2 };
+			ensure!(delivered == want, format!("valid-header-not-delivered-by-codec:{}", label), "height {}: the codec delivered the in-policy header {} times, expected {} (Header message + Headers list with {} before / {} after)", t.height, delivered, want, n_before, n_after);
+		} else if policy_ok {
+			// inside the policy with a proof that is no cycle: reading refuses it today, but the chain checks the
+			// proof itself (part A), so delivery by the codec alone would not be an acceptance — measured only
+			if counting {
+				ev.class(&format!("C:through-codec:bad-pow-{}", if delivered == 0 { "refused" } else { "delivered" }));
+			}
+		} else {
+			ensure!(delivered == 0, format!("policy-violating-header-delivered-by-codec:{}", label), "height {} param {}: the codec delivered a header outside the read-time policy ({} times; Header message + Headers list with {} before / {} after): {:?}", t.height, case.param, delivered, n_before, n_after, m);
+		}
+		if counting {
+			ev.class(&format!("C:through-codec:{}", if accept { "delivered" } else { "refused" }));
 		}
 	}
 	if counting {
